@@ -243,12 +243,12 @@ def _fn(name, stmts, ret='acc'):
     return {'name': name, 'stmts': stmts, 'ret': ret}
 
 
-def _bf(path, callee, arg=0, catch=True, cmp_='M', kw=None):
-    return ['bf', path, cmp_, callee, _e(arg), _e(kw or {}), catch]
+def _bf(path, callee, arg=0, catch=True, cmp_='M', kw=None, extra=None):
+    return ['bf', path, cmp_, callee, _e(arg), _e(kw or {}), catch] + ([[_e(x) for x in extra]] if extra else [])
 
 
-def _sb(callee, arg=0, catch=True, kw=None):
-    return ['sb', callee, _e(arg), _e(kw or {}), catch]
+def _sb(callee, arg=0, catch=True, kw=None, extra=None):
+    return ['sb', callee, _e(arg), _e(kw or {}), catch] + ([[_e(x) for x in extra]] if extra else [])
 
 
 def _q(kind, path, extra=None):
@@ -487,14 +487,19 @@ def scen_identity(rng, index=None):
     k = rng.randrange(10 ** 6) if index is None else index
     a, b, _same = ARG_PAIRS[k % len(ARG_PAIRS)]
     p = rng.choice(PATHS2)
-    as_kw = (k // len(ARG_PAIRS)) % 2 == 0
-    use_bf = (k // (2 * len(ARG_PAIRS))) % 2 == 0
+    mode = (k // len(ARG_PAIRS)) % 3          # 0: keyword, 1: positional, 2: positional 'opt', v against keyword opt=v
+    use_bf = (k // (3 * len(ARG_PAIRS))) % 2 == 0
 
-    def call(v):
-        if as_kw:
+    def call(v, first=True):
+        if mode == 2:
+            # never the same key: [0, 'opt', v] {} against [0] {'opt': v} - whatever a flattened key would say
+            if first:
+                return _bf(p, 1, arg=0, extra=['opt', v]) if use_bf else _sb(1, arg=0, extra=['opt', v])
+            return _bf(p, 1, arg=0, kw={'opt': v}) if use_bf else _sb(1, arg=0, kw={'opt': v})
+        if mode == 0:
             return _bf(p, 1, arg=0, kw={'opt': v}) if use_bf else _sb(1, arg=0, kw={'opt': v})
         return _bf(p, 1, arg=v) if use_bf else _sb(1, arg=v)
-    funcs = [_fn('f0', [['if', ['arg', _e(0)], [call(a)], [call(b)]]]),
+    funcs = [_fn('f0', [['if', ['arg', _e(0)], [call(a)], [call(b if mode != 2 else a, False)]]]),
              _fn('f1', [['w', None]], rng.choice(['acc', {'const': _e('r')}]))]
     funcs.append(_fn('rootfail', funcs[0]['stmts'] + [['raise', 99]]))
     steps = [_build(arg=0), _build(arg=1), _build(arg=1), _build(arg=0)]
